@@ -13,7 +13,9 @@ META = {
                    "(replication_fetcher.add_keys) only behind closest_k_peers.contains(holder) && holder != self; (3) the "
                    "GetReplicatedRecord arm answers with the bytes of get_local_record(key) unchanged; (4) store_replicated_in_record has a "
                    "storing arm for each payment-free kind and rejects the four with-payment kinds (exhaustive); (5) the advertised "
-                   "RecordType takes part in add_keys' local-presence test, so a differing version of a held mutable record is fetched. "
+                   "RecordType takes part in add_keys' local-presence test, so a differing version of a held mutable record is fetched; (6) the "
+                   "functions the replication path stores mutable kinds through keep the higher-counter validly signed scratchpad, the verified "
+                   "merge of registers and the union of verified transactions (the C07 merge rules, evaluated under C09.converge.*). "
                    "Not decided: convergence as a dynamic fact, byte-identical copies.",
     "not_decided": ["that rounds of replication actually converge (dynamic)", "byte equality of replicated copies"],
 }
@@ -28,6 +30,9 @@ FILTERS = ("::filter", "::filter_map", "::take", "::skip", "::retain", "::trunca
 
 def run(R):
     F = R.F
+    # convergence of mutable kinds goes through the same validate/compare/merge functions the replication path calls (rules shared with C07)
+    from props.C07 import merge_rules
+    merge_rules(R, "C09.converge")
     tir = R.body("C09.advertise", TIR)
     if tir is not None:
         prep(tir)
